@@ -462,6 +462,34 @@ def homonym_space() -> List[Case]:
     return cases
 
 
+# ---------------------------------------------------------------------------- EMPTY
+def empty_space() -> List[Case]:
+    """Messages without fields (docs/language.rst allows them, e.g. as placeholders): plain (0 bits) and extensible (the 16-bit
+    size prefix only) - alone, between two fields, as array element, nested in an extensible message."""
+    cases, n = [], 0
+    for ext in (False, True):
+        for shape in ("alone", "between", "array", "ext_array", "in_ext_message", "two"):
+            cid = "e%d" % n
+            n += 1
+            b = CaseBuilder(cid)
+            r = b.place(MessageDef("R" + cid, ext, ()), "top")
+            b.feats.update({"empty_message", "msg_ext" if ext else "msg_plain"})
+            if shape == "alone":
+                fields = [Field(r, "r", 1)]
+            elif shape == "between":
+                fields = [Field(Uint(3), "kind", 1), Field(r, "r", 2), Field(Uint(5), "seq", 3)]
+            elif shape == "array":
+                fields = [Field(Int(7), "head", 1), Field(Array(r, 2), "rs", 2), Field(Int(10), "tail", 3)]
+            elif shape == "ext_array":
+                fields = [Field(Uint(2), "head", 1), Field(Array(r, 3, True), "rs", 2), Field(Uint(9), "tail", 3)]
+            elif shape == "two":
+                fields = [Field(r, "a", 1), Field(r, "b", 2), Field(Bool(), "t", 3)]
+            else:
+                fields = [Field(Bool(), "head", 1), Field(r, "r", 2), Field(Uint(12), "tail", 3)]
+            cases.append(b.finish("M" + cid, shape == "in_ext_message", fields, "EMPTY message%s %s" % ("'" if ext else "", shape)))
+    return cases
+
+
 # ----------------------------------------------------------------------------- BIG
 def big_space(codec_only: bool = False) -> List[Case]:
     """Messages far beyond the other scopes' sizes: > 255 bytes, > 4 096 bytes (32 767 bits), the 65 535-bit maximum."""
